@@ -121,6 +121,17 @@ func (m *Type) Clone(reuse *Type) *Type {
 	return &Type{sp: m.sp - fp, fp: newFP, global: m.global, closure: closure, stack: newStack, frefs: []*Frame{nil}}
 }
 
+// Abandon detaches the frame headers of the calls in flight from the stack,
+// the way PopFrame does for a call that returns. It is for a context that is
+// dropped: function values defined in its calls keep their frames.
+func (m *Type) Abandon() {
+	for _, ref := range m.frefs {
+		if ref != nil {
+			*ref = slices.Clone(*ref)
+		}
+	}
+}
+
 // CallDepth is the number of call frames.
 func (m *Type) CallDepth() int {
 	return len(m.fp) / 2
